@@ -369,8 +369,47 @@ func harnessAPI(e *Exec, g *G, fn *ssa.Function, args []Value) (Value, bool) {
 		return Tuple{Ptr(nil), Ptr(nil)}, true
 	case "ctxTimeoutCount":
 		return tt.BV(64, uint64(len(e.ctxTimeouts))), true
+	case "strLen":
+		return tt.I2BV(64, tt.StrLen(args[0].(*Term))), true
+	case "envLogCount":
+		n, _ := args[0].(*Term).ConstStr()
+		c := 0
+		for _, r := range e.envLog {
+			if r.name == n {
+				c++
+			}
+		}
+		return tt.BV(64, uint64(c)), true
+	case "envLogStr", "envLogInt":
+		n, _ := args[0].(*Term).ConstStr()
+		ci, ai := int(args[1].(*Term).U), int(args[2].(*Term).U)
+		c := 0
+		for _, r := range e.envLog {
+			if r.name == n {
+				if c == ci {
+					if ai < len(r.args) {
+						if t, ok := r.args[ai].(*Term); ok {
+							if fn.Name() == "envLogInt" && t.Sort.K == KBV && t.Sort.W != 64 {
+								return tt.ZExt(64, t), true
+							}
+							return t, true
+						}
+					}
+					e.unsupported("envLog argument %d of %s is not a scalar", ai, n)
+				}
+				c++
+			}
+		}
+		e.fail(OutAssumeFalse, "no such env call")
+		return nil, true
+	case "envSetResult":
+		n, _ := args[0].(*Term).ConstStr()
+		e.envResults[n] = args[1].(*Term)
+		return nil, true
 	case "atoiStr":
 		return tt.I2BV(64, tt.StrToInt(args[0].(*Term))), true
+	case "containsSlash":
+		return tt.Contains(args[0].(*Term), tt.Str("/")), true
 	case "containsEq":
 		return tt.Contains(args[0].(*Term), tt.Str("=")), true
 	case "verifReach":
@@ -702,6 +741,81 @@ func init() {
 	reg("errors.Is", func(e *Exec, g *G, fn *ssa.Function, args []Value) (Value, bool) {
 		return e.tt.Bool(e.errIs(args[0], args[1], 0)), true
 	})
+	reg("errors.As", func(e *Exec, g *G, fn *ssa.Function, args []Value) (Value, bool) {
+		tgt := args[1].(Iface)
+		pt, ok := tgt.T.(*types.Pointer)
+		if !ok {
+			e.unsupported("errors.As target %v", tgt.T)
+		}
+		want := pt.Elem()
+		cur := args[0]
+		for depth := 0; depth < 8; depth++ {
+			iv, ok := cur.(Iface)
+			if !ok || iv.T == nil {
+				break
+			}
+			match := false
+			if it, isIface := want.Underlying().(*types.Interface); isIface {
+				match = e.implements(iv, it)
+			} else {
+				match = types.Identical(iv.T, want)
+			}
+			if match {
+				if _, isIface := want.Underlying().(*types.Interface); isIface {
+					storeInto(tgt.V.(Ptr), iv)
+				} else {
+					storeInto(tgt.V.(Ptr), iv.V)
+				}
+				return e.tt.True, true
+			}
+			if ev, ok := iv.V.(*ErrVal); ok {
+				if len(ev.Wraps) == 0 {
+					break
+				}
+				cur = ev.Wraps[0]
+				continue
+			}
+			if um := e.methodByName(iv.T, "Unwrap"); um != nil && um.Signature.Results().Len() == 1 && isErrorType(um.Signature.Results().At(0).Type()) {
+				cur = e.callSync(g, um, []Value{iv.V})
+				continue
+			}
+			break
+		}
+		return e.tt.False, true
+	})
+	reg("google.golang.org/grpc/status.Errorf", func(e *Exec, g *G, fn *ssa.Function, args []Value) (Value, bool) {
+		ev := &ErrVal{ID: e.newID(), Name: "grpc-status", Attrs: map[string]Value{"grpc-code": args[0]}}
+		return Iface{T: errValType, V: ev}, true
+	})
+	intrinsics["google.golang.org/grpc/status.Error"] = intrinsics["google.golang.org/grpc/status.Errorf"]
+	reg("google.golang.org/grpc/status.Code", func(e *Exec, g *G, fn *ssa.Function, args []Value) (Value, bool) {
+		cur := args[0]
+		for depth := 0; depth < 8; depth++ {
+			iv, ok := cur.(Iface)
+			if !ok || iv.T == nil {
+				if depth == 0 {
+					return e.tt.BV(32, 0), true // codes.OK
+				}
+				break
+			}
+			if ev, ok := iv.V.(*ErrVal); ok {
+				if c, ok := ev.Attrs["grpc-code"]; ok {
+					return c, true
+				}
+				if len(ev.Wraps) == 0 {
+					break
+				}
+				cur = ev.Wraps[0]
+				continue
+			}
+			if um := e.methodByName(iv.T, "Unwrap"); um != nil && um.Signature.Results().Len() == 1 && isErrorType(um.Signature.Results().At(0).Type()) {
+				cur = e.callSync(g, um, []Value{iv.V})
+				continue
+			}
+			break
+		}
+		return e.tt.BV(32, 2), true // codes.Unknown
+	})
 	reg("errors.Unwrap", func(e *Exec, g *G, fn *ssa.Function, args []Value) (Value, bool) {
 		a := args[0].(Iface)
 		if ev, ok := a.V.(*ErrVal); ok && len(ev.Wraps) > 0 {
@@ -939,6 +1053,28 @@ func init() {
 			}
 		}
 		return e.tt.Str(""), true
+	})
+	// environment calls recorded for OS-boundary obligations (C17, C18); results chosen by the harness
+	envCall := func(name string, okResult func(e *Exec, fn *ssa.Function) Value) {
+		reg(name, func(e *Exec, g *G, fn *ssa.Function, args []Value) (Value, bool) {
+			e.envLog = append(e.envLog, envLogRec{name: name, args: args})
+			return okResult(e, fn), true
+		})
+	}
+	errOrNil := func(e *Exec, fn *ssa.Function) Value {
+		if t, ok := e.envResults[fn.String()]; ok {
+			if b, _ := t.ConstBool(); b {
+				return e.newErr(fn.String()+" failed", nil)
+			}
+		}
+		return Iface{}
+	}
+	envCall("os.Remove", errOrNil)
+	envCall("os.MkdirAll", errOrNil)
+	envCall("os.RemoveAll", errOrNil)
+	reg("net.ListenUnix", func(e *Exec, g *G, fn *ssa.Function, args []Value) (Value, bool) {
+		e.envLog = append(e.envLog, envLogRec{name: "net.ListenUnix", args: args})
+		return Tuple{Ptr(nil), e.newErr("net.ListenUnix (environment: not available)", nil)}, true
 	})
 	reg("runtime.Gosched", func(e *Exec, g *G, fn *ssa.Function, args []Value) (Value, bool) { return nil, true })
 	reg("os.IsNotExist", func(e *Exec, g *G, fn *ssa.Function, args []Value) (Value, bool) {
